@@ -8,6 +8,11 @@
 (* N, or seeded random walks with -simulate); the spellings of a state are  *)
 (* Cases(s) (e.g. the digit groups with every suffix and context type).     *)
 (* "static" families are finite sets enumerated as initial states.          *)
+(* Families beyond one-literal spellings: "sufx" (suffix x spelling class x *)
+(* context type x sign x kind of context), "prog" (programs with trivia in  *)
+(* every gap and every ending of the input), "progg" (grown programs: chunk *)
+(* sequences); for "prog" spellings Out also carries Features(sp), the      *)
+(* classes the spelling exercises, for the anti-vacuity guard of the check. *)
 EXTENDS Literals, Json, IOUtils
 
 CONSTANTS Family,    \* which family of spellings
@@ -157,12 +162,107 @@ TriviaCases ==
           sh \in ShebangForms, cf \in CommentForms}
 
 -----------------------------------------------------------------------------
-GrowFamilies == {"intg", "hexg", "str", "fstr", "char", "ident"}
+(* suffix x spelling x context-type matrix: every spelling class of a number *)
+(* (integer spelled, with underscores also directly before the suffix, a    *)
+(* magnitude that f32 cannot hold; with fraction; with exponent) x no suffix *)
+(* or any of the ten type names x every context type x sign x kind of       *)
+(* context.  Denote says for each cell: value, or must not compile.         *)
+TypeSeq == IntCtx \o <<"f32", "f64">>
+TypeSet == {TypeSeq[i] : i \in 1..Len(TypeSeq)}
+SufxIntDigits ==
+  {<<"1", "0">>, <<"1", "_", "0">>, <<"1", "0", "_">>, <<"0">>, <<"1", "6", "7", "7", "7", "2", "1", "7">>}
+  \cup (IF Big THEN {<<"1", "6", "_", "7", "7", "7", "_", "2", "1", "7", "_">>, <<"2", "5", "5">>, <<"1", "_", "_", "2", "8">>,
+                     <<"0", "0", "7">>, Syms(Pow2Big(31)), Syms(Pow2Big(53)), Syms(BigSucc(Pow2Big(53)))} ELSE {})
+(* <<ip, dot, fp, ex, es, ed>> *)
+SufxFloatShapes ==
+  {<<<<"1", "0">>, TRUE, <<"0">>, "", "", <<>>>>, <<<<"1", "_", "0">>, TRUE, <<"5", "_">>, "", "", <<>>>>,
+   <<<<"1">>, FALSE, <<>>, "e", "", <<"1">>>>, <<<<"1">>, FALSE, <<>>, "e", "", <<"1", "_">>>>,
+   <<<<"2">>, TRUE, <<"5">>, "E", "-", <<"0", "_">>>>}
+  \cup (IF Big THEN {<<<<"1", "0">>, TRUE, <<>>, "", "", <<>>>>, <<<<"1", "6", "7", "7", "7", "2", "1", "7">>, TRUE, <<"0">>, "", "", <<>>>>,
+                     <<<<"1", "6", "7", "7", "7", "2", "1", "7">>, FALSE, <<>>, "e", "+", <<"0">>>>,
+                     <<<<"0">>, TRUE, <<"1", "2", "5">>, "", "", <<>>>>} ELSE {})
+(* <<neg, pos>>: the quick tier runs both signs where the literal is returned and the positive literal elsewhere *)
+SufxNegPos == IF Big THEN BOOLEAN \X PosForms ELSE {<<FALSE, "ret">>, <<TRUE, "ret">>, <<FALSE, "let">>, <<FALSE, "arg">>}
+SufxCases ==
+  {[fam |-> "int", neg |-> np[1], radix |-> "dec", ds |-> ds, suf |-> suf, ctx |-> ctx, pos |-> np[2]] :
+     np \in SufxNegPos, ds \in SufxIntDigits, suf \in TypeSet \cup {""}, ctx \in TypeSet}
+  \cup {[fam |-> "float", neg |-> np[1], ip |-> f[1], dot |-> f[2], fp |-> f[3], ex |-> f[4], es |-> f[5], ed |-> f[6],
+         suf |-> suf, ctx |-> ctx, pos |-> np[2]] :
+          np \in SufxNegPos, f \in SufxFloatShapes, suf \in TypeSet \cup {""}, ctx \in TypeSet}
+
+-----------------------------------------------------------------------------
+(* programs with trivia (Literals "Programs with trivia")                   *)
+RECURSIVE Flat(_)
+Flat(ss) == IF ss = <<>> THEN <<>> ELSE Head(ss) \o Flat(Tail(ss))
+
+ItemToks(nm, ds) == <<Tk("fn"), Tk(nm), Tk("("), Tk(")"), Tk("->"), Tk("i32"), Tk("{"), Dg(ds), Tk("}")>>
+(* tokens with trivia: fill[1] before the first token, fill[i + 1] behind   *)
+(* token i (behind the separator); sep = "sp": one space between any two    *)
+(* tokens, "tight": only where two words would run together                 *)
+SepAt(toks, i, sep) ==
+  IF i < Len(toks) /\ (sep = "sp" \/ (IsWord(toks[i]) /\ IsWord(toks[i + 1]))) THEN <<Ws("sp")>> ELSE <<>>
+WithTrivia(toks, fill, sep) ==
+  fill[1] \o Flat([i \in 1..Len(toks) |-> <<toks[i]>> \o SepAt(toks, i, sep) \o fill[i + 1]])
+Spaced(toks) == WithTrivia(toks, [i \in 1..(Len(toks) + 1) |-> <<>>], "sp")
+(* how the input ends: as the last gap leaves it | without its final line   *)
+(* end (if it has one) | with one more line end                             *)
+EndForms == {"asis", "chop", "nl"}
+Ended(ps, e) ==
+  CASE e = "asis" -> ps
+    [] e = "chop" -> IF ps # <<>> /\ IsLineEnd(ps[Len(ps)]) THEN SubSeq(ps, 1, Len(ps) - 1) ELSE ps
+    [] e = "nl"   -> ps \o <<Ws("nl")>>
+ShebLine(b) == IF b = "" THEN <<>> ELSE <<Sheb(b), Ws("nl")>>
+Prog(ps) == [fam |-> "prog", ps |-> ps]
+
+ComLine(b) == <<Com(b), Ws("nl")>>
+CommentedItem(nm, ds) == <<Com("empty"), Ws("sp")>> \o Spaced(ItemToks(nm, ds)) \o <<Ws("nl")>>
+TriviaGroups ==
+  {ComLine(b) : b \in ComBodies}
+  \cup {CommentedItem("g", <<"2">>), CommentedItem("f", <<"9">>),             \* commented-out code, as tokens
+        <<Ws("nl")>>, <<Ws("nl"), Ws("tab"), Ws("nl")>>, <<Ws("crlf")>>,       \* blank lines
+        <<Com("plain"), Ws("crlf")>>,
+        <<Com("plain"), Com("item_g"), Ws("nl")>>,                             \* `// a comment// fn g() ...`
+        <<Com("plain"), Ws("nl"), Com("item_g"), Ws("nl")>>,                   \* two comment lines
+        <<Com("empty"), Sheb("path"), Ws("nl")>>}                              \* `//#!/usr/bin/roto`
+Skel1 == ItemToks("f", <<"7">>)
+Skel2 == ItemToks("f", <<"4", "2">>) \o ItemToks("h", <<"3">>)
+NoFill(toks) == [i \in 1..(Len(toks) + 1) |-> <<>>]
+(* one gap at a time, every group, every ending *)
+ProgOneGap(toks) ==
+  {Prog(Ended(WithTrivia(toks, [NoFill(toks) EXCEPT ![g] = t], "sp"), e)) :
+     g \in 1..(Len(toks) + 1), t \in TriviaGroups, e \in EndForms}
+(* two gaps at a time (thorough tier) *)
+ProgTwoGaps(toks) ==
+  {Prog(Ended(WithTrivia(toks, [NoFill(toks) EXCEPT ![g[1]] = t1, ![g[2]] = t2], "sp"), e)) :
+     g \in {x \in (1..(Len(toks) + 1)) \X (1..(Len(toks) + 1)) : x[1] < x[2]}, t1 \in TriviaGroups, t2 \in TriviaGroups, e \in {"asis", "chop"}}
+(* every gap with the same group x separator x shebang line x ending *)
+ProgAllGaps(toks) ==
+  {Prog(Ended(ShebLine(sh) \o WithTrivia(toks, [i \in 1..(Len(toks) + 1) |-> t], sep), e)) :
+     t \in TriviaGroups \cup {<<>>}, sep \in {"sp", "tight"}, sh \in ShebBodies \cup {""}, e \in EndForms}
+(* no item at all: shebang line and / or one group, every ending (`#!/usr/bin/roto` alone, `//` alone, the empty input) *)
+ProgNoItem ==
+  {Prog(Ended(ShebLine(sh) \o t, e)) : t \in TriviaGroups \cup {<<>>}, sh \in ShebBodies \cup {""}, e \in EndForms}
+ProgCases ==
+  ProgOneGap(Skel1) \cup ProgOneGap(Skel2) \cup ProgAllGaps(Skel1) \cup ProgNoItem
+  \cup (IF Big THEN ProgAllGaps(Skel2) \cup ProgTwoGaps(Skel1) ELSE {})
+
+(* grown programs: sequences over a menu of chunks (whole items, comment    *)
+(* openers, white space, a shebang): every order, so also an item behind a  *)
+(* comment opener at the end of the input, a shebang that is not first, ... *)
+ProgChunks == << Spaced(ItemToks("f", <<"7">>)) \o <<Ws("sp")>>,
+                 Spaced(ItemToks("g", <<"2">>)) \o <<Ws("sp")>>,
+                 WithTrivia(ItemToks("h", <<"0", "3">>), NoFill(Skel1), "tight"),
+                 <<Com("plain")>>, <<Com("empty")>>, <<Com("item_g")>>,
+                 <<Ws("nl")>>, <<Ws("sp")>>, <<Ws("crlf")>>, <<Sheb("path")>> >>
+
+-----------------------------------------------------------------------------
+GrowFamilies == {"intg", "hexg", "str", "fstr", "char", "ident", "progg"}
 
 MenuLen ==
   CASE Family = "intg" -> Len(IntSyms) [] Family = "hexg" -> Len(HexSymsMenu)
     [] Family \in {"str", "fstr", "char"} -> Len(TextMenu(Family))
     [] Family = "ident" -> Len(ClsMenu)
+    [] Family = "progg" -> Len(ProgChunks)
     [] OTHER -> 0
 
 Cases(x) ==
@@ -172,6 +272,7 @@ Cases(x) ==
     [] Family \in {"str", "fstr", "char"} ->
          LET m == TextMenu(Family) IN {[fam |-> Family, items |-> [j \in 1..Len(x) |-> m[x[j]]]]}
     [] Family = "ident" -> IF Len(x) >= 1 THEN {[fam |-> "ident", cls |-> [j \in 1..Len(x) |-> ClsMenu[x[j]]]]} ELSE {}
+    [] Family = "progg" -> {Prog(Flat([j \in 1..Len(x) |-> ProgChunks[x[j]]]))}
 
 StaticCases ==
   CASE Family = "intb" -> IntBoundCases
@@ -184,6 +285,8 @@ StaticCases ==
     [] Family = "pfx6" -> Pfx6Cases
     [] Family = "asn" -> AsnCases
     [] Family = "trivia" -> TriviaCases
+    [] Family = "sufx" -> SufxCases
+    [] Family = "prog" -> ProgCases
 
 (* the written-out limits of Literals are the computed ones *)
 ASSUME \A ty \in IntTypes, neg \in BOOLEAN : MaxMag(ty, neg) = MaxMagComputed(ty, neg)
@@ -194,7 +297,7 @@ MCNext == /\ Family \in GrowFamilies /\ Len(s) < N
           /\ \E i \in 1..MenuLen : s' = Append(s, i)
 MCSpec == MCInit /\ [][MCNext]_s
 
-Out(sp) == [sp |-> sp, den |-> Denote(sp), toks |-> TokenShape(sp), dev |-> DeviantFstr(sp)]
+Out(sp) == [sp |-> sp, den |-> Denote(sp), toks |-> TokenShape(sp), dev |-> DeviantFstr(sp), feat |-> Features(sp)]
 
 Emit ==
   IF Family \in GrowFamilies
